@@ -10,13 +10,15 @@ import sched as schedmod
 MODULE = "Alpen.Props.C13"
 
 
-def gen_program(rng, maxlen):
+def gen_program(rng, maxlen, sleeps=False):
     """a per-thread list of lock calls"""
     prog = []
     held = []
     for _ in range(rng.randint(1, maxlen)):
         r = rng.random()
-        if held and r < 0.45:
+        if sleeps and r < 0.15:
+            prog.append(("sleep", rng.choice([1, 2, 3, 4])))
+        elif held and r < 0.45:
             prog.append(("rel", held.pop()))
         else:
             d = rng.random() < 0.5
@@ -51,6 +53,7 @@ def execute(progs, choices=None, rng=None):
     mutex_name = getattr(mutex, "name", None)
     cur = {}          # thread idx -> [op description, number of critical sections so far]
     events = []       # ("cs", tid, kind) | ("ret", tid, value) | ("tick", dt)
+    late = []         # timed / non-blocking calls that returned after their deadline (virtual clock)
 
     def snapshot():
         owners = dict(getattr(internals, "_owners", {}))
@@ -70,6 +73,12 @@ def execute(progs, choices=None, rng=None):
     def mk(tid, prog):
         def body():
             for op in prog:
+                if op[0] == "sleep":
+                    s.sleep(op[1])
+                    s.log.append(("ret", tid, "slept"))
+                    continue
+                t0 = s.clock
+                log0 = len(s.log)
                 if op[0] == "acq":
                     _, d, mode = op
                     acc = lock.down if d else lock.up
@@ -96,6 +105,21 @@ def execute(progs, choices=None, rng=None):
                     except RuntimeError:
                         out = "error"
                 events.append(("ret", tid, out, snapshot()))
+                if op[0] == "acq" and op[2] in ("timed", "timed0", "nonblock"):
+                    # a timed call may be delayed by the scheduler before it first looks at the clock, but from its first
+                    # sleep on it has a fixed deadline (first sleep + time-out): no later sleep may reach beyond it, and no
+                    # single sleep may be longer than the time-out
+                    limit = 5 if op[2] == "timed" else 0
+                    first = None
+                    for ev in s.log[log0:]:
+                        if ev[0] == "wait" and ev[1] == tid:
+                            if first is None:
+                                first = ev[4] + limit
+                            if ev[3] is None or ev[3] > first:
+                                late.append(f"thread {tid}: {'down' if op[1] else 'up'}.acquire({'timeout=%d' % limit if op[2] != 'nonblock' else 'blocking=False'}) "
+                                            f"started waiting at t={first - limit} (deadline t={first}) but at t={ev[4]} went to sleep until "
+                                            f"t={ev[3]}, beyond its deadline (returned {out!r} at t={s.clock})")
+                                break
                 cur.pop(tid, None)
                 s.log.append(("ret", tid, out))
                 take(s.log[-1])
@@ -107,7 +131,7 @@ def execute(progs, choices=None, rng=None):
     # merge: scheduler log has ("acq", tid, lockname) for every mutex acquisition and ("tick", dt)
     wants = {tid: v[0] for tid, v in cur.items()}
     return dict(result=res, sched_log=list(s.log), events=events, taken=list(s.taken), mutex=mutex_name,
-                final=snapshot(), blocked=s.blocked_desc if res != "done" else [], progs=progs, wants=wants, snaps=snaps)
+                final=snapshot(), blocked=s.blocked_desc if res != "done" else [], progs=progs, wants=wants, snaps=snaps, late=late)
 
 
 def snaps_by_cs(run):
@@ -132,6 +156,8 @@ def to_model_ops(run):
             if pc[tid] >= len(progs[tid]):
                 continue
             op = progs[tid][pc[tid]]
+            if op[0] == "sleep":
+                continue
             if op[0] == "acq":
                 if ncs[tid] == 0:
                     mode = op[2]
@@ -173,6 +199,7 @@ def judge(ctx, run, drv_lines_out=None):
                 probs.append(f"thread {tid} is blocked for ever inside release(): {run['blocked']}")
     elif run["result"] == "steps":
         probs.append("schedule did not terminate (livelock)")
+    probs += run.get("late", [])
     for (li, cnt, owners, parked) in run["snaps"]:
         for tid, (want_down, notified) in parked.items():
             excluded = cnt > 0 if want_down else cnt < 0
@@ -273,11 +300,19 @@ def run(ctx):
         for ch in itertools.product([0, 1], repeat=depth):
             r = execute(progs, choices=list(ch))
             runs.append(r)
+    # 1b. corpus: a timed waiter that is woken before its deadline while the lock is still taken (re-taken in the other
+    # state by the releasing thread): the remaining time, not the whole time-out, must be waited for
+    A = [("acq", False, "block"), ("sleep", 3), ("rel", False), ("acq", False, "block"), ("sleep", 4), ("rel", False)]
+    B = [("acq", True, "timed"), ("rel", True)]
+    C = [("sleep", 2), ("acq", False, "block"), ("sleep", 2), ("rel", False)]
+    for progs in ([A, B], [A, B, C], [A, B, B]):
+        for sd in range(400 if ctx.quick() else 4000):
+            runs.append(execute(progs, rng=random.Random(sd)))
     # 2. random programs and schedules
     n = 1200 if ctx.quick() else 40000
     for i in range(n):
         nthreads = rng.choice([2, 2, 3])
-        progs = [gen_program(rng, 4) for _ in range(nthreads)]
+        progs = [gen_program(rng, 4, sleeps=(i % 3 == 0)) for _ in range(nthreads)]
         r = execute(progs, rng=random.Random(rng.getrandbits(32)))
         runs.append(r)
     nd = 0
@@ -290,7 +325,7 @@ def run(ctx):
                          "final_count": r["final"][0]} if nwait and len(ctx.samples) < 3 else None)
         for p in judge(ctx, r):
             free = r["final"][0] == 0
-            ctx.violation(("lostwake:" if free else "deadlock:") + json.dumps(r["progs"])[:50], p,
+            ctx.violation(("late:" if "beyond its deadline" in p else "lostwake:" if free else "deadlock:") + json.dumps(r["progs"])[:50], p,
                           {"kind": "schedule", "programs": r["progs"], "schedule": r["taken"], "problem": p,
                            "sched_log": r["sched_log"][-30:]})
     compare_with_model(ctx, runs)
